@@ -43,6 +43,15 @@ CHECKS.update({
          "Every interleaving of 2 requesters x 1-2 next() calls over used-subsets of {0..7} is enumerated; 3-requester schedules are generated; real pools of 1-16 threads build forests with 8-20 trees that must pass the C01 walker.", "Sequentially consistent scheduling of Relaxed atomics (x86-TSO); weak-memory reorderings not explored.", "4 C13"),
 })
 
+CHECKS.update({
+ "C08": ("exploration", "schedule-owning stateful property-based testing (generated reader/writer interleavings) + free-running race stress with a schedule-independent oracle",
+         "Mode A dispatches generated open/check/close steps of 4 reader threads between the writer's ops, builds, commits and aborts: each reader must see exactly the version committed before its open, completely and for as long as it holds its transaction; aborts leave the raw dump unchanged. Mode B runs writer and readers freely; a sentinel item pins the version window.", "LMDB MVCC trusted. Mode B timing is by chance.", "4 C08"),
+ "C09": ("fault_enumeration", "crash-point enumeration: child process parked at an enumerated callback / operation / commit and SIGKILLed, parent reopens and compares with the acknowledged versions' models",
+         "Every callback of one build per history (plus sampled ones), operation boundaries and commit windows are kill points; after each kill the reopened environment must equal the last acknowledged (or in-flight) version, pass walker and exact search, and be writable; chains resume to the end.", "Process death only: page cache survives, no torn writes.", "4 C09"),
+ "C10": ("fault_enumeration", "fault enumeration: cancel-at-n for every n of the complete build's polls, LMDB map-size ladder, unusable temp dirs, fd/temp-file census",
+         "For generated states with pending insertions and deletions, the build is cancelled at every poll index; it must return BuildCancelled (or Ok with a valid index if never polled again), never panic; abort restores the raw dump byte for byte; retry validates; MapFull and io errors are reported as such; no fd or temp file leaks.", "Monotone callbacks; ENOSPC/EIO on temp files not injectable here.", "4 C10"),
+})
+
 NOT_YET = {}
 
 def main():
